@@ -590,6 +590,35 @@ static int sch_ecdsa(sess_t *s) {
 				}
 				bn_free(fp); bn_free(x); ec_free(R); ec_free(T);
 			}
+			if (f && !strcmp(f->kind, "v_forgecmp") && rc == RLC_OK) {
+				/* from an honest (e, r, s): r' = r with one bit flipped, s' = r' s / r, e' = e s' / s.  The verifier's
+				 * point R is unchanged (u1 = e/s, u2 = r/s), so x(R) = r and the triple is invalid - it differs
+				 * from a valid one in exactly one bit of r.  Pre-hashed mode (the digest is e'). */
+				uint8_t h[RLC_MD_LEN];
+				const uint8_t *m = s->msg;
+				size_t len = s->msg_len, nb = bn_bits(ord);
+				bn_t t, u;
+				bn_null(t); bn_null(u); bn_new(t); bn_new(u);
+				if (!s->opt[0]) { md_map(h, m, len); m = h; len = RLC_MD_LEN; }
+				if (8 * len > nb) { len = RLC_CEIL(nb, 8); bn_read_bin(s->b[3], m, len); bn_rsh(s->b[3], s->b[3], 8 * len - nb); }
+				else bn_read_bin(s->b[3], m, len);
+				bn_mod(s->b[3], s->b[3], ord);						/* e */
+				bn_copy(t, s->b[1]);								/* r */
+				size_t bit = (size_t)f->a % (nb - 1);
+				bn_set_bit(t, bit, !bn_get_bit(t, bit));			/* r' */
+				if (!bn_is_zero(t) && bn_cmp(t, ord) == RLC_LT && !bn_is_zero(s->b[1]) && !bn_is_zero(s->b[3]) && nb % 8 == 0) {
+					bn_mod_inv(u, s->b[1], ord);
+					bn_mul(u, u, t); bn_mod(u, u, ord);				/* r'/r */
+					bn_mul(s->b[2], s->b[2], u); bn_mod(s->b[2], s->b[2], ord);	/* s' = s r'/r */
+					bn_mul(s->b[3], s->b[3], u); bn_mod(s->b[3], s->b[3], ord);	/* e' = e r'/r */
+					bn_copy(s->b[1], t);
+					s->opt[0] = 1;
+					s->msg_len = nb / 8;
+					bn_write_bin(s->msg, s->msg_len, s->b[3]);
+					tr_printf("NOTE %d one-bit-of-r-off bit=%zu\n", s->sid, bit);
+				}
+				bn_free(t); bn_free(u);
+			}
 			if (f && !strcmp(f->kind, "v_forgeord2")) {
 				/* a point of order two on another curve: Q' = (x0, 0) is off the curve; with the pre-hashed digest
 				 * zero (u1 = 0) the verification equation only computes u2 Q', and (r, s) = (x0 mod n, r) gives
